@@ -1022,6 +1022,21 @@ MUTANTS = [
       "            'user_id': headers.get('X-Target-User-Id'),",
       "            'user_id': headers.get('X-Target-User-Id'),\n"
       "            'roles': headers.get('X-Target-Roles', '').split(','),"),
+    m('C12-upstream-query-without-skipped', 'C12', ['R4'],
+      W + 'direct_workflow.py',
+      "            name={'in': t_specs_names},\n"
+      "            state={'in': (states.SUCCESS, states.ERROR,\n"
+      "                          states.CANCELLED, states.SKIPPED)},",
+      "            name={'in': t_specs_names},\n"
+      "            state={'in': (states.SUCCESS, states.ERROR,\n"
+      "                          states.CANCELLED)},"),
+    m('C05-upstream-query-success-only', 'C05', ['R9'],
+      W + 'direct_workflow.py',
+      "                state={'in': (states.SUCCESS, states.ERROR,\n"
+      "                              states.CANCELLED, states.SKIPPED)},\n"
+      "                processed=True",
+      "                state=states.SUCCESS,\n"
+      "                processed=True"),
 ]
 
 
@@ -1405,4 +1420,11 @@ REFACTORS = [
       '        req.headers["X-Roles"] = roles\n'
       '        req.headers["X-Project-Id"] = realm_name\n'
       '        req.headers["X-Identity-Status"] = "Confirmed"'),
+    r('C05-ref-upstream-states-list', 'C05', W + 'direct_workflow.py',
+      "            name={'in': t_specs_names},\n"
+      "            state={'in': (states.SUCCESS, states.ERROR,\n"
+      "                          states.CANCELLED, states.SKIPPED)},",
+      "            name={'in': t_specs_names},\n"
+      "            state={'in': [states.SKIPPED, states.CANCELLED,\n"
+      "                          states.ERROR, states.SUCCESS]},"),
 ]
